@@ -80,7 +80,7 @@ Definition spec_contains (s o : str) : sres :=
 
 Definition spec_index_of (s o : str) : sres :=
   match spec_find o s with
-  | Some k => let n := Z.of_N (blen (firstn k s)) in if in_i32 n then SVal (VSome (VInt n)) else SFail
+  | Some k => let n := Z.of_N (blen (firstn k s)) in if in_i32 n then SVal (VInt n) else SFail
   | None => SVal VNil
   end.
 
@@ -120,19 +120,16 @@ Definition spec_replace (s pat rep : str) : sres :=
 (* split(mid): the two halves at byte mid when 0 <= mid < len; [s, ""] when mid is negative or >= len
    (tests: "goodwill".split(100), split(-1)); a position inside a character: failure *)
 Definition spec_split (s : str) (mid : Z) : sres :=
+  if mid <? 0 then SVal (VVec [VStr s; VStr []]) else
   if negb (in_i32 (Z.of_N (blen s))) then SFail else
-  if (mid <? 0) || (Z.of_N (blen s) <=? mid) then SVal (VVec [VStr s; VStr []]) else
+  if Z.of_N (blen s) <=? mid then SVal (VVec [VStr s; VStr []]) else
   match cut s (Z.to_N mid) with Some (a, r) => SVal (VVec [VStr a; VStr r]) | None => SFail end.
 
 Definition spec_chars (s : str) : sres := SVal (VVec (map (fun c => VStr [c]) s)).
 
 (* integer text: sign? digit+ ; value in the range of the kind, otherwise nil *)
 Definition spec_numeral (signed : bool) (lo hi : Z) (r : N) (s : str) : option Z :=
-  let '(neg, ds) := match s with
-                    | 43%N :: t => (false, t)
-                    | 45%N :: t => if signed then (true, t) else (false, s)
-                    | _ => (false, s)
-                    end in
+  let '(neg, ds) := split_sign signed s in
   match ds with
   | [] => None
   | _ => match digits_val r ds 0 with
@@ -142,41 +139,41 @@ Definition spec_numeral (signed : bool) (lo hi : Z) (r : N) (s : str) : option Z
          end
   end.
 Definition sopt (mk : Z -> val) (o : option Z) : sres :=
-  match o with Some z => SVal (VSome (mk z)) | None => SVal VNil end.
+  match o with Some z => SVal (mk z) | None => SVal VNil end.
 
 (* parse_int / parse_bigint: decimal; a leading 0x means hexadecimal (the language's own literal syntax) *)
 Definition spec_parse_int (s : str) : sres :=
-  match s with
-  | 48%N :: 120%N :: t => sopt VInt (spec_numeral true i32_min i32_max 16 t)
-  | _ => sopt VInt (spec_numeral true i32_min i32_max 10 s)
+  match strip_0x s with
+  | Some t => sopt VInt (spec_numeral true i32_min i32_max 16 t)
+  | None => sopt VInt (spec_numeral true i32_min i32_max 10 s)
   end.
 Definition spec_parse_bigint (s : str) : sres :=
-  match s with
-  | 48%N :: 120%N :: t => sopt VBig (spec_numeral true i128_min i128_max 16 t)
-  | _ => sopt VBig (spec_numeral true i128_min i128_max 10 s)
+  match strip_0x s with
+  | Some t => sopt VBig (spec_numeral true i128_min i128_max 16 t)
+  | None => sopt VBig (spec_numeral true i128_min i128_max 10 s)
   end.
 (* parse_*_radix: the caller states the radix (2..36, anything else: failure); an 0x prefix is ignored *)
 Definition spec_parse_radix (mk : Z -> val) (lo hi : Z) (s : str) (radix : Z) : sres :=
   if (2 <=? radix) && (radix <=? 36) then
-    sopt mk (spec_numeral true lo hi (Z.to_N radix) (match s with 48%N :: 120%N :: t => t | _ => s end))
+    sopt mk (spec_numeral true lo hi (Z.to_N radix) (match strip_0x s with Some t => t | None => s end))
   else SFail.
 Definition spec_parse_int_radix := spec_parse_radix VInt i32_min i32_max.
 Definition spec_parse_bigint_radix := spec_parse_radix VBig i128_min i128_max.
 
 Definition spec_parse_bool (s : str) : sres :=
-  if str_eqb s s_true then SVal (VSome (VBool true))
-  else if str_eqb s s_false then SVal (VSome (VBool false)) else SVal VNil.
+  if str_eqb s s_true then SVal (VBool true)
+  else if str_eqb s s_false then SVal (VBool false) else SVal VNil.
 
 (* parse_byte: 0b + binary digits, or decimal; 0..255 *)
 Definition spec_parse_byte (s : str) : sres :=
-  match s with
-  | 48%N :: 98%N :: t => sopt VByte (spec_numeral false 0 255 2 t)
-  | _ => sopt VByte (spec_numeral false 0 255 10 s)
+  match strip_0b s with
+  | Some t => sopt VByte (spec_numeral false 0 255 2 t)
+  | None => sopt VByte (spec_numeral false 0 255 10 s)
   end.
 
-(* s * n : n copies; a negative count has no meaning *)
+(* s * n : n copies; a negative count has no meaning, a count above usize::MAX is not representable *)
 Definition spec_repeat (s : str) (n : Z) : sres :=
-  if n <? 0 then SFail else
+  if negb (in_usize n) then SFail else
   match s with
   | [] => SVal (VStr [])
   | _ => if isize_max <? Z.of_N (blen s) * n then SFail (* not representable *)
